@@ -1,8 +1,6 @@
 package main
 
 import (
-	"fmt"
-	"strings"
 
 	. "verifharness/hlib"
 	ml "verifharness/medialib"
@@ -50,23 +48,5 @@ func run(c *Ctx) {
 	ml.RecordOutcome(c, ml.ScWorkerLostWakeup("flvmuxer.beforePop", "flv.(*Muxer).process"), "c03")
 	ml.RecordOutcome(c, ml.ScWorkerLostWakeup("tsmuxer.beforePop", "mpegts.(*Muxer).process"), "c03")
 	ml.FlvWireRuns(c)
-	ns := c.Budget(6, 60)
-	var traces []string
-	for i := 0; i < ns; i++ {
-		o := ml.ScStress(c.Seed*1000+uint64(i), i%2 == 1)
-		o.Name = fmt.Sprintf("%s-%d", o.Name, i)
-		ml.RecordOutcome(c, o, "c03-stress")
-		if o.Trace != "" {
-			traces = append(traces, "c03 "+o.Trace)
-		}
-	}
-	// the observed traces are judged by the Lean trace oracle (prefix of replay(cut) ++ live)
-	for i, out := range c.Drive(traces) {
-		c.Count("stress-traces-judged")
-		if strings.Contains(out, "bad") {
-			c.Find(Finding{Kind: "oracle", Class: "concurrent-stress-trace", Case: traces[i], Impl: out,
-				Spec:   "every delivered list is a prefix of replay(cut k) ++ published[k..] for some cut k",
-				Detail: "a consumer's delivered sequence in a concurrent run is not replay ++ contiguous live part"})
-		}
-	}
+	ml.StressRuns(c, "c03", c.Budget(6, 60))
 }
